@@ -59,9 +59,10 @@ struct World {
    std::string initErr, initKey;   // the start-state script itself disagreed
    bool ood;                  // a callback left the compared domain (detached an ancestor of the running node)
    unsigned cbKinds;          // callback action kinds performed during the current operation
+   unsigned activeMask;       // after an out-of-domain detach: nodes whose PulseAux() is still running
    int lastDeferred; uint64 lastWake; int lastKind;
    int hist[64], nHist, startIdx; bool skipStructure;   // skipStructure: inside a start-state script (its last op is checked)
-   World() : m(N), now(T0), phase(0), mode(0), nAsked(0), nPulsed(0), ood(false), cbKinds(0), lastDeferred(0), lastWake(0), lastKind(-1), nHist(0), startIdx(0), skipStructure(false) { for (int i = 0; i < N; i++) { node[i] = new TNode(this, i); ran[i] = false; } }
+   World() : m(N), now(T0), phase(0), mode(0), nAsked(0), nPulsed(0), ood(false), cbKinds(0), activeMask(0), lastDeferred(0), lastWake(0), lastKind(-1), nHist(0), startIdx(0), skipStructure(false) { for (int i = 0; i < N; i++) { node[i] = new TNode(this, i); ran[i] = false; } }
    ~World() { for (int i = N - 1; i >= 0; i--) delete node[i]; }
    void Fail(const char * key, const std::string & msg) { if (err.empty()) { err = msg; errKey = key; } }
 private:
@@ -97,13 +98,15 @@ static void RunAction(World & w, int k)
    case A_INVALIDATE: w.node[t]->InvalidatePulseTime(); w.m.Invalidate(t, true); break;
    case A_DETACH: {
       const int p = w.m.n[t].parent; if (p < 0) break;
-      if (w.m.InSubtree(k, t)) w.ood = true;   // detaching the running node or one of its ancestors from inside the callback: nothing is documented about the rest of this pulse sweep
+      if (w.m.InSubtree(k, t)) {   // detaching the running node or one of its ancestors from inside the callback: nothing is documented about the rest of this pulse sweep
+         w.ood = true; for (int x = k; x >= 0; x = w.m.n[x].parent) w.activeMask |= 1u << x;   // their PulseAux() stays on the stack although the tree no longer shows them as ancestors
+      }
       w.node[p]->RemovePulseChild(w.node[t]); w.m.Detach(t); break; }
    case A_ATTACH: {
       if (w.m.InSubtree(k, t) || w.m.Depth(k) + 1 + w.m.Height(t) > MAXDEPTH) break;   // would create a cycle (contract violation) or leave the bounded space: not performed
       w.node[k]->PutPulseChild(w.node[t]); w.m.Attach(t, k); break; }
    case A_DESTROY: {
-      if (w.m.InSubtree(k, t)) break;   // destroying the running node or an ancestor while its PulseAux() is on the stack is outside the class contract: not performed
+      if (w.m.InSubtree(k, t) || (w.activeMask & (1u << t))) break;   // destroying the running node or an ancestor while its PulseAux() is on the stack is outside the class contract: not performed
       delete w.node[t]; w.node[t] = new TNode(&w, t); w.m.Destroy(t); w.act[t] = Action(); break; }
    default: break;
    }
@@ -328,7 +331,7 @@ public:
 
    int ApplyOp(World & w, const Op & o, const std::string & opName, std::string & msg, std::string & key) const
    {
-      w.lastDeferred = 0; w.lastKind = o.k; w.cbKinds = 0; w.ood = false; w.nAsked = w.nPulsed = 0; if (!w.err.empty()) { w.err.clear(); w.errKey.clear(); }
+      w.lastDeferred = 0; w.lastKind = o.k; w.cbKinds = 0; w.ood = false; w.activeMask = 0; w.nAsked = w.nPulsed = 0; if (!w.err.empty()) { w.err.clear(); w.errKey.clear(); }
       refpulse::Model & m = w.m;
       switch (o.k) {
       case K_CYCLE: if (w.phase != 0) return seqx::SEQX_DISABLED; DoSweep(w); if (w.err.empty()) DoPulse(w); break;
